@@ -5,6 +5,7 @@ import (
 	"fmt"
 	"io"
 	"log/slog"
+	"math"
 	"slices"
 	"time"
 
@@ -117,7 +118,7 @@ func (l *queryLog) search(
 
 	total += bufLen
 
-	totalLimit := params.offset + params.limit
+	totalLimit := totalLimit(params)
 
 	// now let's get a unified collection
 	entries = append(memoryEntries, fileEntries...)
@@ -158,6 +159,17 @@ func (l *queryLog) search(
 	)
 
 	return entries, oldest
+}
+
+// totalLimit returns the maximum number of the newest matching records that are
+// needed to build the page requested by params.  The offset and the limit are
+// validated to be non-negative when parsed.
+func totalLimit(params *searchParams) (n int) {
+	if params.limit > math.MaxInt-params.offset {
+		return math.MaxInt
+	}
+
+	return params.offset + params.limit
 }
 
 // seekRecord changes the current position to the next record older than the
@@ -269,8 +281,7 @@ func (l *queryLog) searchFiles(
 		}
 	}()
 
-	totalLimit := params.offset + params.limit
-	entries, oldestNano, total := l.readEntries(ctx, r, params, cache, totalLimit)
+	entries, oldestNano, total := l.readEntries(ctx, r, params, cache, totalLimit(params))
 	if oldestNano != 0 {
 		oldest = time.Unix(0, oldestNano)
 	}
